@@ -1,192 +1,3 @@
-// C17 harness: typed conversion through the basic_json route and the streaming route, for a fixed family of C++ types.
-//   ty <typeId> <json|cbor|msgpack|ubjson|bson> | <json value>
-//   -> A:<ok value | err> B:<ok value | err> flags
-//      A  = j.as<T>() re-expressed as json (the basic_json route)
-//      B  = decode_X<T>(encode_X(j)) re-expressed by encode_X(T) and decode_X<json> (the streaming route, both directions)
-//      flags: rt (decode_X<T>(encode_X(a)) gives a again), enc (encode_X(a) and encode_X(json(a)) decode to the same json),
-//             try (the try_ variants agree with the throwing ones)
-#include "common.hpp"
-#include <jsoncons_ext/cbor/cbor.hpp>
-#include <jsoncons_ext/msgpack/msgpack.hpp>
-#include <jsoncons_ext/ubjson/ubjson.hpp>
-#include <jsoncons_ext/bson/bson.hpp>
-#include <array>
-#include <map>
-#include <memory>
-#include <optional>
-#include <set>
-#include <tuple>
-#include <variant>
-
-using namespace jvh;
-namespace jc = jsoncons;
-
-namespace fam {
-struct S1                              // N_MEMBER: two mandatory, declaration order not alphabetical
-{
-    std::string zeta;
-    int32_t alpha{0};
-    std::optional<int32_t> mid;
-    std::optional<std::string> note;
-};
-struct S2                              // ALL_MEMBER, nesting S1
-{
-    std::vector<S1> items;
-    std::map<std::string, S1> by_name;
-    bool flag{false};
-};
-struct S3                              // N_MEMBER with one mandatory member, the first optional one a smart pointer
-{
-    uint16_t id{0};
-    std::shared_ptr<std::string> label;
-    std::optional<std::vector<int8_t>> bytes;
-};
-enum class Colour { red, green, blue };
-}
-JSONCONS_N_MEMBER_TRAITS(fam::S1, 2, zeta, alpha, mid, note)
-JSONCONS_ALL_MEMBER_TRAITS(fam::S2, items, by_name, flag)
-JSONCONS_N_MEMBER_TRAITS(fam::S3, 1, id, label, bytes)
-JSONCONS_ENUM_TRAITS(fam::Colour, red, green, blue)
-
-enum class fmt_t { json, cbor, msgpack, ubjson, bson };
-
-template <class T>
-static std::string enc(fmt_t f, const T& v)
-{
-    std::string s;
-    std::vector<uint8_t> b;
-    switch (f)
-    {
-        case fmt_t::json: jc::encode_json(v, s); return s;
-        case fmt_t::cbor: jc::cbor::encode_cbor(v, b); break;
-        case fmt_t::msgpack: jc::msgpack::encode_msgpack(v, b); break;
-        case fmt_t::ubjson: jc::ubjson::encode_ubjson(v, b); break;
-        case fmt_t::bson: jc::bson::encode_bson(v, b); break;
-    }
-    return std::string(b.begin(), b.end());
-}
-
-template <class T>
-static T dec(fmt_t f, const std::string& s)
-{
-    std::vector<uint8_t> b(s.begin(), s.end());
-    switch (f)
-    {
-        case fmt_t::json: return jc::decode_json<T>(s);
-        case fmt_t::cbor: return jc::cbor::decode_cbor<T>(b);
-        case fmt_t::msgpack: return jc::msgpack::decode_msgpack<T>(b);
-        case fmt_t::ubjson: return jc::ubjson::decode_ubjson<T>(b);
-        default: return jc::bson::decode_bson<T>(b);
-    }
-}
-
-template <class T>
-static bool try_dec_ok(fmt_t f, const std::string& s)
-{
-    std::vector<uint8_t> b(s.begin(), s.end());
-    switch (f)
-    {
-        case fmt_t::json: return bool(jc::try_decode_json<T>(s));
-        case fmt_t::cbor: return bool(jc::cbor::try_decode_cbor<T>(b));
-        case fmt_t::msgpack: return bool(jc::msgpack::try_decode_msgpack<T>(b));
-        case fmt_t::ubjson: return bool(jc::ubjson::try_decode_ubjson<T>(b));
-        default: return bool(jc::bson::try_decode_bson<T>(b));
-    }
-}
-
-template <class T>
-static std::string run(fmt_t f, const jc::json& j)
-{
-    std::string out;
-    std::string flags;
-    // route A
-    bool a_ok = false;
-    jc::json ja;
-    std::unique_ptr<T> a;
-    try
-    {
-        a.reset(new T(j.template as<T>()));
-        ja = jc::json(*a);
-        a_ok = true;
-        out += "A:ok " + show(ja);
-    }
-    catch (const jc::json_exception&) { out += "A:err"; }
-    {
-        auto r = j.template try_as<T>();
-        flags += (bool(r) == a_ok) ? " tryA" : " TRY-AS-DISAGREES";
-    }
-    // route B
-    std::string bytes;
-    try { bytes = enc(f, j); }
-    catch (const jc::json_exception& e) { return out + " B:unencodable ||" + flags; }
-    bool b_ok = false;
-    jc::json jb;
-    try
-    {
-        T b = dec<T>(f, bytes);
-        std::string bytes_b = enc(f, b);
-        jb = dec<jc::json>(f, bytes_b);
-        b_ok = true;
-        out += " B:ok " + show(jb);
-    }
-    catch (const jc::json_exception&) { out += " B:err"; }
-    flags += (try_dec_ok<T>(f, bytes) == b_ok || !b_ok) ? " tryB" : " TRY-DECODE-DISAGREES";
-    if (a_ok)
-    {
-        // typed round trip and route-independent encodings
-        try
-        {
-            std::string ea = enc(f, *a);                 // streaming encode of the typed value
-            jc::json via_stream = dec<jc::json>(f, ea);
-            std::string ej = enc(f, ja);                 // encode of its basic_json form
-            jc::json via_dom = dec<jc::json>(f, ej);
-            flags += (via_stream == via_dom) ? " enc" : " ENCODINGS-DIFFER";
-            T back = dec<T>(f, ea);
-            flags += (jc::json(back) == ja) ? " rt" : " ROUND-TRIP-DIFFERS";
-        }
-        catch (const jc::json_exception& e) { flags += std::string(" TYPED-ENCODE-OR-DECODE-FAILED(") + e.what() + ")"; }
-    }
-    return out + " ||" + flags;
-}
-
-using T_tuple = std::tuple<int32_t, std::string, bool>;
-using T_variant = std::variant<int32_t, std::string>;
-
-static std::string dispatch(const std::string& id, fmt_t f, const jc::json& j)
-{
-    if (id == "i32") return run<int32_t>(f, j);
-    if (id == "u8") return run<uint8_t>(f, j);
-    if (id == "i64") return run<int64_t>(f, j);
-    if (id == "u64") return run<uint64_t>(f, j);
-    if (id == "str") return run<std::string>(f, j);
-    if (id == "bool") return run<bool>(f, j);
-    if (id == "vi32") return run<std::vector<int32_t>>(f, j);
-    if (id == "mi16") return run<std::map<std::string, int16_t>>(f, j);
-    if (id == "tup") return run<T_tuple>(f, j);
-    if (id == "oi32") return run<std::optional<int32_t>>(f, j);
-    if (id == "vos") return run<std::vector<std::optional<std::string>>>(f, j);
-    if (id == "s1") return run<fam::S1>(f, j);
-    if (id == "s2") return run<fam::S2>(f, j);
-    if (id == "s3") return run<fam::S3>(f, j);
-    if (id == "pair") return run<std::pair<int32_t, std::string>>(f, j);
-    if (id == "arr3") return run<std::array<int32_t, 3>>(f, j);
-    if (id == "vvu16") return run<std::vector<std::vector<uint16_t>>>(f, j);
-    if (id == "sets") return run<std::set<std::string>>(f, j);
-    if (id == "enum") return run<fam::Colour>(f, j);
-    if (id == "var") return run<T_variant>(f, j);
-    if (id == "sps1") return run<std::shared_ptr<fam::S1>>(f, j);
-    if (id == "vs1") return run<std::vector<fam::S1>>(f, j);
-    if (id == "ms3") return run<std::map<std::string, fam::S3>>(f, j);
-    throw bad_op{};
-}
-
-std::string jvh::handle(const toks_t& t)
-{
-    if (t.size() < 5 || t[0] != "ty" || t[3] != "|") throw bad_op{};
-    fmt_t f = t[2] == "json" ? fmt_t::json : t[2] == "cbor" ? fmt_t::cbor : t[2] == "msgpack" ? fmt_t::msgpack : t[2] == "ubjson" ? fmt_t::ubjson : fmt_t::bson;
-    std::size_t p = 4;
-    jc::json j = read_val<jc::json>(t, p);
-    return dispatch(t[1], f, j);
-}
-
-int main() { return run_main(); }
+// C17 harness, slice 1 of the type family (see ty_family.hpp)
+#define TY_PART 1
+#include "ty_family.hpp"
